@@ -5,6 +5,7 @@ import (
 	"encoding/json"
 	"fmt"
 	"reflect"
+	"sync"
 
 	"verifharness/mon"
 	"verifharness/ref"
@@ -71,6 +72,9 @@ func parseProblem(b []byte) (problem string, libAcc, refAcc, panicked bool) {
 	if !bytes.Equal(ser, b) {
 		return fmt.Sprintf("serialise(parse(b)) != b (len %d vs %d, first difference at %d)", len(ser), len(b), firstByteDiff(ser, b)), true, true, false
 	}
+	if p := retain(ser, b); p != "" {
+		return p, true, true, false
+	}
 	// exported part serialisers
 	if h, err := abi.HeaderToAbiBytes(msg.GetHeader()); err != nil || !bytes.Equal(h, b[0:48]) {
 		return fmt.Sprintf("HeaderToAbiBytes != bytes 0..47 (err=%v)", err), true, true, false
@@ -83,6 +87,32 @@ func parseProblem(b []byte) (problem string, libAcc, refAcc, panicked bool) {
 		return fmt.Sprintf("EnclaveReportToAbiBytes != the QE report bytes (err=%v)", err), true, true, false
 	}
 	return "", true, true, false
+}
+
+// retained keeps the serialisations handed out recently together with what they have to be; every 32 calls all of them are
+// compared again: a result must stay what it was after later calls have run (it is the caller's slice).
+var retained struct {
+	sync.Mutex
+	got, want [][]byte
+}
+
+func retain(ser, want []byte) string {
+	if len(ser) > 1<<20 {
+		return ""
+	}
+	retained.Lock()
+	defer retained.Unlock()
+	retained.got, retained.want = append(retained.got, ser), append(retained.want, append([]byte(nil), want...))
+	if len(retained.got) < 32 {
+		return ""
+	}
+	defer func() { retained.got, retained.want = nil, nil }()
+	for i := range retained.got {
+		if !bytes.Equal(retained.got[i], retained.want[i]) {
+			return fmt.Sprintf("a serialisation handed out %d calls ago (%d bytes) no longer equals the quote it was made from (first difference at %d): later QuoteToAbiBytes calls overwrote it", len(retained.got)-i, len(retained.want[i]), firstByteDiff(retained.got[i], retained.want[i]))
+		}
+	}
+	return ""
 }
 
 func firstByteDiff(a, b []byte) int {
